@@ -27,6 +27,7 @@ func Spec() *evid.Spec {
 			"logger.Fatal is a process exit, not a loss: the monitor emulates the restart (StreamLogs from last processed block + 1) and applies the oracle to the concatenation; a Fatal is never reported as a violation",
 			"the client's own Info log line \"fetched registry events\" is used as the signal that an eth_getLogs answer has reached the client (pacing of the next fault only, never the verdict)",
 			"no chain reorganisations: a log flagged removed is simply never to be delivered",
+			"a server-side drop never lands between the client's socket write of a request and go-ethereum's internal acknowledgement of that send (the harness does an eth_syncing round trip through ExecutionClient.Healthy before every drop): in that window go-ethereum v1.13.5's rpc.Client loses the request without failing it and FilterLogs/SubscribeNewHead, called without a deadline, never return - a stall that no finite observation can tell from slowness, so it is kept out of the scenarios",
 		},
 		MinNontrivial: 200,
 		Lanes: []evid.Lane{
